@@ -1,5 +1,6 @@
 pub mod c10;
 pub mod conform;
+pub mod realmix;
 pub mod c12;
 pub mod c13;
 pub mod c14;
@@ -193,6 +194,7 @@ pub fn run(name: &str, args: &Args) -> Option<Report> {
             guarded(&mut rep, name, "C14", seed, start, |rep| c14::run(seed, start, iters, rep));
         }
         "conform" => conform::run(&mut rep, args.seed),
+        "realmix" => realmix::run(args.seed, args.start, args.iters, &mut rep),
         "c15" => c15::run(args.seed, args.start, args.iters, &mut rep),
         "c18" => c18::run(args.seed, args.start, args.iters, &mut rep),
         "c12" => c12::run(args.seed, args.start, args.iters, &mut rep, false),
